@@ -195,6 +195,12 @@ def recovery(rep, prog, P):
                             src = reg[2]
                             if isinstance(src, tuple) and src and src[0] == 'memcpy' and src[1] in ('heap:cached.icon', 'SEEN'):
                                 bad.append(('in', 'stale', src[1]))
+                    # recycled heap memory is pre-Reset state too (freed observations, the freed icon): a transmitted byte that
+                    # no store and no zero-fill determines carries whatever the allocator's previous tenant left there
+                    okinit, why = S.initialised_upto(S.length)
+                    rep.check(okinit, P + '.3', '%s|send-init' % region,
+                              'a frame transmitted after the Reset contains undetermined bytes (%s): recycled heap memory from before the Reset can leak into it' % why,
+                              function=S.d['fn'], file='lltdResponder/lltdBlock.c')
                     rep.check(not bad, P + '.3', '%s|send' % region,
                               'a frame transmitted after the Reset contains data from before it: %s (abstract state %s)' % (sorted(set(short(a) for a in bad))[:4], label),
                               function=S.d['fn'], file='lltdResponder/lltdBlock.c',
